@@ -25,10 +25,14 @@ head-formula atom are merged by `IntervalSet`.  Proved:
   * `interval_add` / `interval_addAll`  `IntervalSet.add` keeps the sorted-disjoint invariant and the set of time
                                     points is exactly the union of the added ranges — so the domain rule built from
                                     the merged ranges of a schema covers what the ranges of each instance cover
-PARTIAL: that clingo's grounder computes the instances is the grounder's contract; `transform_subst` (the rewriting
-commutes with substitution on the full statement AST — conditions, aggregates, theory atoms) is proved for the terms of
-atoms only (`time_arg_commutes_with_substitution`); the statement level is covered
-by the search: schema vs its own textual instantiation over a finite domain (variables, pools, intervals, arithmetic,
+  * `transform_commutes_with_substitution` / `program_transform_commutes_with_substitution`  the same for whole statements and
+                                    programs, a statement being the sequence of its atom occurrences with the flags of their positions
+                                    (everything else in the AST is copied; model `addTimeStmt`, compared with one real
+                                    `TermTransformer` visiting the atoms of a statement in order): same rewritten atoms, same
+                                    `future_predicates` / `max_shift` at the end, same first rejection
+PARTIAL: that clingo's grounder computes the instances is the grounder's contract; that `ProgramTransformer` visits exactly the
+atoms of a statement with the flags of the position table is the C11 model (`flags_table`) and its grid correspondence; the
+statement level is additionally covered by the search: schema vs its own textual instantiation over a finite domain (variables, pools, intervals, arithmetic,
 comparisons, conditions, aggregates, n-fold prefixes given by variables, #show/#external), equal answer sets.
 -/
 import TelProofs.ElementsSem
@@ -37,6 +41,7 @@ import TelModel.Reject
 import TelProofs.TimeArgProofs
 import TelProofs.SymRoundTrip
 import TelProofs.TimeArgSubst
+import TelProofs.StmtSubst
 import TelProofs.TermConvProofs
 import TelProofs.HeadVarsProofs
 
@@ -138,5 +143,19 @@ example : (ATerm.pool [.fn "p''" ["1"], .neg (.fn "q'" ["X", "2"])]).insts true 
   simp [ATerm.insts, ATerm.instsL]
 example : IvSorted [⟨0, 2⟩, ⟨4, 5⟩] := by simp [IvSorted]
 example : IntervalSet.add [⟨0, 2⟩, ⟨4, 5⟩] ⟨2, 4⟩ = [⟨0, 5⟩] := by decide
+
+/-- **rewriting commutes with substitution on whole statements**: a statement is the sequence of its atom occurrences, each with
+    the flags of its position; the bookkeeping is threaded through in visit order -/
+theorem transform_commutes_with_substitution (σ : String → String) (os : List AtomOcc) (st : TState) :
+    addTimeStmt (os.map (AtomOcc.subst σ)) st =
+      (addTimeStmt os st).map (fun p => (p.1.map (RTerm.substArgs σ), p.2)) :=
+  addTimeStmt_subst σ os st
+
+/-- … and on programs: the future predicates and the maximal look-ahead recorded for a schema program are those of every
+    instantiation -/
+theorem program_transform_commutes_with_substitution (σ : String → String) (ss : List (List AtomOcc)) (st : TState) :
+    addTimeProg (ss.map (List.map (AtomOcc.subst σ))) st =
+      (addTimeProg ss st).map (fun p => (p.1.map (List.map (RTerm.substArgs σ)), p.2)) :=
+  addTimeProg_subst σ ss st
 
 end TelProofs.C06
